@@ -49,6 +49,9 @@ pub fn cores() -> Vec<(&'static str, Exp)> {
         // three operands with different ranges, the first one dominated (pruned) before two retained ones
         ("max{b-5,x,2c}", Exp::Max(vec![bin(BinOp::Sub, b(), num(5.0)), x(), bin(BinOp::Mul, num(2.0), c())])),
         ("min{b+5,x,2c}", Exp::Min(vec![bin(BinOp::Add, b(), num(5.0)), x(), bin(BinOp::Mul, num(2.0), c())])),
+        // a fractional coefficient inside a block (the block value is fractional although x may be integer)
+        ("max{0.5x,b}", Exp::Max(vec![bin(BinOp::Mul, num(0.5), x()), b()])),
+        ("abs{x/2-b}", Exp::Abs(bin(BinOp::Sub, bin(BinOp::Div, x(), num(2.0)), b()).to_box())),
         // the same block twice with opposite orientations (a lowering that is shared between the
         // occurrences must be exact)
         ("max{x,b}/2-max{x,b}", bin(BinOp::Sub, bin(BinOp::Div, Exp::Max(vec![x(), b()]), num(2.0)), Exp::Max(vec![x(), b()]))),
@@ -213,6 +216,28 @@ pub fn family_b_trees(max_n: usize) -> Vec<Exp> {
             all.push(Exp::Not(Exp::Implies(a.clone().to_box(), b.clone().to_box()).to_box()));
         }
     }
+    // every nesting of two binary logic operators over three distinct variables, plain and negated
+    // (a false disjunction / implication has to be witnessed inside an asserted formula)
+    let (b, c, d) = (var("b"), var("c"), var("d"));
+    let mk = |k: usize, l: Exp, r: Exp| -> Exp {
+        match k {
+            0 => Exp::And(vec![l, r]),
+            1 => Exp::Or(vec![l, r]),
+            2 => Exp::Xor(l.to_box(), r.to_box()),
+            3 => Exp::Implies(l.to_box(), r.to_box()),
+            _ => Exp::Iff(l.to_box(), r.to_box()),
+        }
+    };
+    for outer in 0..5 {
+        for inner in 0..5 {
+            let left = mk(outer, mk(inner, b.clone(), c.clone()), d.clone());
+            let right = mk(outer, b.clone(), mk(inner, c.clone(), d.clone()));
+            all.push(Exp::Not(left.clone().to_box()));
+            all.push(Exp::Not(right.clone().to_box()));
+            all.push(left);
+            all.push(right);
+        }
+    }
     all
 }
 const B_FORMS: usize = 1 + 3 * 5 * 2;
@@ -330,19 +355,21 @@ pub fn cores_d() -> Vec<(&'static str, Exp)> {
 const RHS_D: [f64; 6] = [-1.0, 0.0, 0.5, 2.0, 2.5, 4.0];
 pub fn family_d_size(depth: usize) -> u64 {
     let nctx: u64 = if depth == 0 { 1 } else { CTX_NAMES.len() as u64 };
-    cores_d().len() as u64 * nctx * 3 * RHS_D.len() as u64 * 2 * 2
+    // the other side of the relation is one of the constants or the variable w
+    cores_d().len() as u64 * nctx * 3 * (RHS_D.len() as u64 + 1) * 2 * 2
 }
 pub fn family_d(i: u64, depth: usize) -> Case {
     let cs = cores_d();
     let mut d = Digits(i);
     let int_y = d.pick(2) == 1;
     let side = d.pick(2);
-    let rhs = *d.of(&RHS_D);
+    let rhs_i = d.pick(RHS_D.len() + 1);
+    let other = if rhs_i < RHS_D.len() { num(RHS_D[rhs_i]) } else { var("w") };
     let rel = *d.of(&RELS);
     let k = if depth == 0 { 0 } else { d.pick(CTX_NAMES.len()) };
     let (cname, core) = d.of(&cs).clone();
     let e = ctx(k, core);
-    let (lhs, rhs_e) = if side == 0 { (e, num(rhs)) } else { (num(rhs), e) };
+    let (lhs, rhs_e) = if side == 0 { (e, other) } else { (other, e) };
     let vars = vec![("x".to_string(), Dom::Real(-3.0, 3.0)), ("w".to_string(), Dom::Real(2.0, 4.0)), ("y".to_string(), if int_y { Dom::Int(-1, 2) } else { Dom::Real(-1.0, 2.5) })];
     Case {
         model: SrcModel { vars, cons: vec![SrcCons { lhs, rel, rhs: rhs_e, bare: false, name: "r".into() }], sense: Sense::Satisfy, obj: num(0.0) },
@@ -588,7 +615,7 @@ pub fn run(mut run: Run) -> ! {
     run.case_timeout_s = 60.0;
     let quick = run.quick();
     let depth = if quick { 1 } else { 2 };
-    run.rule = format!("Model values built through the public constructors (usage marks as the transformer sets them): family A = {} cores (abs/min/max nests, logic values in arithmetic, dominated and equal operands) x every chain of <= {depth} contexts from 12 (positive/negative scale, negation, subtraction on either side, division by +-2, abs, min, max, minus x) x 3 relations x 7 constants (incl. the ends +-3 of the declared ranges) x both sides x 8 declaration forms (declared, row-derived, scaled-row-derived, unbounded, half-bounded, integer); family B = every logic tree with <= {} operator nodes over b,c,d,0,1 (incl. n-ary and empty and/or), plus every binary logic operator over operands with 0, 1 or 2 negations, x bare assertion and 30 comparison forms; family C = 12 bound feeders x 15 consumers; family D = 14 cores over three variables with different ranges (x real, w real, y real or integer; min/max with three operands, nested blocks, sums of blocks) in every context (thorough) x 3 relations x 6 constants (incl. the range ends of w and y) x both sides, decided for every real x on every grid line of the other continuous variables; each compiled model is decided exactly: all assignments of the discrete variables x every cell (breakpoints, midpoints, beyond-ends) of the region partition of the continuous one; distinct = model text; non-trivial = compiled with at least one auxiliary or changed row count", cores().len(), if quick { 1 } else { 2 });
+    run.rule = format!("Model values built through the public constructors (usage marks as the transformer sets them): family A = {} cores (abs/min/max nests, logic values in arithmetic, dominated and equal operands) x every chain of <= {depth} contexts from 12 (positive/negative scale, negation, subtraction on either side, division by +-2, abs, min, max, minus x) x 3 relations x 7 constants (incl. the ends +-3 of the declared ranges) x both sides x 8 declaration forms (declared, row-derived, scaled-row-derived, unbounded, half-bounded, integer); family B = every logic tree with <= 2 operator nodes over b,c,d,0,1 (incl. n-ary and empty and/or), plus every binary logic operator over operands with 0, 1 or 2 negations and every nesting of two binary logic operators over three variables (plain and negated), x bare assertion and 30 comparison forms; family C = 12 bound feeders x 15 consumers; family D = 14 cores over three variables with different ranges (x real, w real, y real or integer; min/max with three operands, nested blocks, sums of blocks) in every context (thorough) x 3 relations x (6 constants incl. the range ends of w and y, or the variable w) x both sides, decided for every real x on every grid line of the other continuous variables; each compiled model is decided exactly: all assignments of the discrete variables x every cell (breakpoints, midpoints, beyond-ends) of the region partition of the continuous one; distinct = model text; non-trivial = compiled with at least one auxiliary or changed row count", cores().len());
     run.assume("exact source semantics (refsem) and exact projection of the linear model: integer auxiliaries enumerated, continuous auxiliaries by exact LP; the projection's interval endpoints are added to the test points, so S = L is decided on the whole real line of one continuous variable; extra continuous variables are checked on a 9-point rational grid (slice mode)");
     run.assume("models in which the continuous variable occurs under a logic operator, or whose source is undefined at a test point, are skipped and counted");
     let sa = family_a_size(depth, quick);
